@@ -67,6 +67,12 @@ def hasKey (d : List α) (k : String) : Bool := d.any (fun x => name x == k)
 /-- `d.get(k, None)` -/
 def get? (d : List α) (k : String) : Option α := d.find? (fun x => name x == k)
 
+/-! `_dict_diff` and `_dict_common` compare dictionary KEYS only (`set(dict_a)`, `set(dict_b)` are the key sets): whether a child
+is added, removed or common is decided by `hasKey` on the other side and by nothing else - not by the `node_id` of the sliver
+stored under the key, nor by the slivers' weak `__eq__` (name + node_id).  A child re-created under its old name (fresh
+`node_id`) is therefore *common*, and its property changes are reported as modifications.  The extractor checks this shape of both
+helpers (`Cfg.dictKeyOnly`); `Proofs/C17.lean`: `dict_select_by_key_only`, `dict_partition_by_key`. -/
+
 /-- `_dict_diff(a, b)['added'].values()` : `{k: b[k] for k in set(b) - set(a)}` -/
 def dictAdded (a b : List α) : List α := b.filter (fun x => !hasKey a (name x))
 
